@@ -46,6 +46,16 @@ class Progress:
         return task_result
 
 
+
+class StructuredError(Exception):
+    """An exception with a structured constructor: it pickles (by reference + args) but does not unpickle, because
+    args holds ONE formatted string while __init__ wants two arguments.  A task may raise anything; the failure
+    must still come back as the failure of its id."""
+
+    def __init__(self, code, ctx):
+        super().__init__(str(code))
+        self.code, self.ctx = code, ctx
+
 def _raise_net(kind, code):
     if kind == "pipe":
         raise BrokenPipeError(str(code))
@@ -107,6 +117,8 @@ def _one_run(par, case, trace_path, sched):
             # report it as the failure of this id - never drop it silently
             return [7 * i + 3, lambda: 0]
         if i in raising:
+            if i % 3 == 0:
+                raise StructuredError(13 * i + 5, "while computing %d" % i)
             raise ValueError(str(13 * i + 5))
         return 7 * i + 3
 
@@ -126,6 +138,8 @@ def _one_run(par, case, trace_path, sched):
         if d:
             time.sleep(d)
         if i in raising:
+            if i % 3 == 0:
+                raise StructuredError(13 * i + 5, "while computing %d" % i)
             raise ValueError(str(13 * i + 5))
 
     def xtask_plain(i):
